@@ -28,6 +28,8 @@ type verifPainter struct {
 	rp, rs, gp, gs, bp, bs      uint64
 	pal                         [256][3]uint64
 	fontData                    []byte
+	// hi: 32-bit pixel format with a colour component above bit 23 (the 4th byte carries colour)
+	hi bool
 }
 
 // pixel returns the bytes a pixel of palette colour idx must hold.
@@ -37,7 +39,11 @@ func (p *verifPainter) pixel(idx uint64) []byte {
 	}
 	c := p.pal[idx]
 	v := (c[0]>>(8-p.rs))<<p.rp | (c[1]>>(8-p.gs))<<p.gp | (c[2]>>(8-p.bs))<<p.bp
-	out := make([]byte, p.ncomp)
+	n := p.ncomp
+	if p.hi {
+		n = 4
+	}
+	out := make([]byte, n)
 	for k := range out {
 		out[k] = byte(v >> (8 * uint(k)))
 	}
@@ -142,7 +148,16 @@ func verifC19Vesa(out *verifOut, id int, cur *verifCur) {
 		p.ncomp != 0 && logoH <= H && pitch >= W*p.bytespp && W >= gw && H-logoH >= gh
 	if inDomain && bpp != 8 {
 		lim := uint64(8 * p.ncomp)
+		if bpp == 32 {
+			lim = 32 // a 32-bit pixel may carry a component in its 4th byte
+		}
 		inDomain = rs <= 8 && gs <= 8 && bs <= 8 && rp+rs <= lim && gp+gs <= lim && bp+bs <= lim
+		p.hi = inDomain && bpp == 32 && (rp+rs > 24 && rs > 0 || gp+gs > 24 && gs > 0 || bp+bs > 24 && bs > 0)
+	}
+	if inDomain {
+		verifStats["vesa-in"]++
+	} else {
+		verifStats["vesa-out"]++
 	}
 	if inDomain {
 		p.wc, p.hc = W/gw, (H-logoH)/gh
@@ -161,9 +176,12 @@ func verifC19Vesa(out *verifOut, id int, cur *verifCur) {
 	setPixel := func(X, Y uint64, px []byte) {
 		for k := uint64(0); k < p.bytespp; k++ {
 			o := p.off(X, Y, k)
-			if k < p.ncomp {
+			switch {
+			case k < p.ncomp:
 				must[o], want[o] = 1, px[k]
-			} else {
+			case p.hi:
+				must[o], want[o] = 3, px[k] // 4th byte of a pixel format that keeps a component there
+			default:
 				must[o] = 2 // byte of a 32-bit pixel that carries no colour
 			}
 		}
@@ -184,7 +202,11 @@ func verifC19Vesa(out *verifOut, id int, cur *verifCur) {
 			ch, fg, bg, x, y := cur.Next(), cur.Next(), cur.Next(), cur.Next(), cur.Next()
 			desc = fmt.Sprintf("%s Write(ch=%#x,fg=%d,bg=%d,x=%d,y=%d)", geo, ch, fg, bg, x, y)
 			panicked, pmsg = verifCall(func() { cons.Write(byte(ch), uint8(fg), uint8(bg), uint32(x), uint32(y)) })
+			if inDomain && (x < 1 || x > p.wc || y < 1 || y > p.hc) {
+				verifStats["write-off"]++
+			}
 			if inDomain && x >= 1 && x <= p.wc && y >= 1 && y <= p.hc {
+				verifStats["write-in"]++
 				fgPx, bgPx := p.pixel(fg), p.pixel(bg)
 				for r := uint64(0); r < gh; r++ {
 					for q := uint64(0); q < gw; q++ {
@@ -203,6 +225,10 @@ func verifC19Vesa(out *verifOut, id int, cur *verifCur) {
 			if inDomain {
 				bgPx := p.pixel(bg)
 				x0, y0 := verifClampOrigin(x, p.wc), verifClampOrigin(y, p.hc)
+				verifStats["fill"]++
+				if x0+w > 1<<32 || y0+h > 1<<32 {
+					verifStats["fill-wrap"]++
+				}
 				for cy := uint64(1); cy <= p.hc; cy++ {
 					for cx := uint64(1); cx <= p.wc; cx++ {
 						if cx >= x0 && cx < x0+w && cy >= y0 && cy < y0+h {
@@ -220,7 +246,11 @@ func verifC19Vesa(out *verifOut, id int, cur *verifCur) {
 			isScroll = true
 			desc = fmt.Sprintf("%s Scroll(dir=%d,lines=%d)", geo, dir, lines)
 			panicked, pmsg = verifCall(func() { cons.Scroll(ScrollDir(dir), uint32(lines)) })
+			if inDomain && (lines < 1 || lines > p.hc) {
+				verifStats["scroll-ignored"]++
+			}
 			if inDomain && lines >= 1 && lines <= p.hc {
+				verifStats["scroll-valid"]++
 				// visible bytes below the logo: no demand unless demanded as moved below
 				for Y := logoH; Y < H; Y++ {
 					for b := uint64(0); b < W*p.bytespp; b++ {
@@ -265,6 +295,7 @@ func verifC19Vesa(out *verifOut, id int, cur *verifCur) {
 			continue
 		}
 		// ---- monitor ----
+		verifCount(must)
 		if panicked {
 			out.Mon(id, "c19:vesa-panic", "%s panicked: %s", desc, pmsg)
 		}
@@ -280,6 +311,13 @@ func verifC19Vesa(out *verifOut, id int, cur *verifCur) {
 			}
 			if must[i] == 1 && fb[i] != want[i] {
 				out.Mon(id, "c19:vesa-wrong-pixel", "%s: byte %d (pixel %d,%d) is %#02x (was %#02x), expected %#02x", desc, i, X, Y, fb[i], before[i], want[i])
+				break
+			}
+		}
+		for i := 0; i < n; i++ { // 4th byte of 32-bit pixels whose format has a component above bit 23
+			if must[i] == 3 && fb[i] != want[i] {
+				out.Mon(id, "vesa:32bpp-high-byte-component-dropped", "%s (masks R %d/%d G %d/%d B %d/%d): byte %d, the 4th byte of pixel (%d,%d), is %#02x (was %#02x), the pixel format needs %#02x there",
+					desc, rp, rs, gp, gs, bp, bs, i, (uint64(i)%pitch)/p.bytespp, uint64(i)/pitch, fb[i], before[i], want[i])
 				break
 			}
 		}
